@@ -49,6 +49,7 @@ def curated(tier):
         add("functional_x", cell, cdeg=2 if cell != "tetrahedron" else 1)
         add("mathfuns", cell)
         add("conditionals", cell)
+        add("geom_all", cell, p={"itype": "cell"})
         add("cond_ties", cell, data_fixed={"w": 0.0, "c": 2.0})
         add("cond_ties", cell)
         add("zero_data_math", cell, data_fixed={"w": 0.0, "c": 2.0})
